@@ -131,14 +131,14 @@ FD_PRIMS = ('os.read', 'os.write', 'os.close', 'os.isatty', 'os.fstat')
 def check_fd_uses(c, repo):
     n = 0
     for f in repo.package_funcs():
-        if f.cls is None or not repo.is_subclass(f.cls, 'SpawnBase'):
-            continue
+        if f.cls is None or not repo.is_subclass(f.cls, 'SpawnBase') or f.cls.name == 'PopenSpawn':
+            continue      # PopenSpawn talks through pipes of its Popen object, it has no child_fd
         for k in calls_in(f.node):
             d = dotted(k.func) or ''
             if d in FD_PRIMS and k.args:
                 a = k.args[0]
                 t = norm(a)
-                if t in ('self.STDOUT_FILENO', 'self.STDIN_FILENO', 'self.STDERR_FILENO', 'fileno'):
+                if t in ('self.STDOUT_FILENO', 'self.STDIN_FILENO', 'self.STDERR_FILENO'):
                     continue
                 n += 1
                 ok = t == 'self.child_fd' or (isinstance(a, ast.Name) and a.id in f.params)
@@ -146,9 +146,14 @@ def check_fd_uses(c, repo):
                         'touching whoever owns the old number)' % d, witness=t, kind='ast', tag='fd-current:%s:%s' % (f.qual, d))
             if callee_last(k) in ('select_ignore_interrupts', 'poll_ignore_interrupts') and k.args:
                 lst = k.args[0]
-                names = [norm(x) for x in (lst.elts if isinstance(lst, ast.List) else [lst])]
+                if isinstance(lst, ast.Name):
+                    # a local list: look at the list literals it is bound to in this function
+                    lits = [st.value for st in iter_nodes(f.node) if isinstance(st, ast.Assign) and lst.id in assigned_names(st) and isinstance(st.value, ast.List)]
+                    names = [norm(x) for l in lits for x in l.elts] or ['<unknown list %s>' % lst.id]
+                else:
+                    names = [norm(x) for x in (lst.elts if isinstance(lst, ast.List) else [lst])]
                 n += 1
-                ok = all(x in ('self.child_fd', 'self.STDIN_FILENO', 'rlist') for x in names)
+                ok = all(x in ('self.child_fd', 'self.STDIN_FILENO') for x in names)
                 c.check(ok, f, k, 'readiness waits watch self.child_fd as it is now', witness=str(names), kind='ast', tag='fd-current:%s:wait' % f.qual)
     # child_fd written only by constructors, _spawn, close
     for f in repo.package_funcs():
